@@ -215,7 +215,15 @@ inductive FqRes
   | got (k : Ident) (r : ReadRes)     -- `Ready(Some((k, res)))`: an item or an error
 deriving Repr
 
-/-- `FairQueue::poll_next` (`block_on_no_clients = true`) -/
+/-- `FairQueue::poll_next` (`block_on_no_clients = true`).
+
+Since fix D17 the real loop YIELDS (wakes its caller, returns `Pending`) when the next event
+belongs to a stream that already returned `Pending` in this call, instead of polling that stream
+again; the caller is then polled again at once.  In this engine a poll is one uninterrupted step
+(no byte arrives inside it) and the harness re-polls a future that woke itself, so "yield and be
+re-polled" and "go on in the same call" are observationally the same here: the model goes on.
+The yield itself — the waker, the bound on sections per call — is the subject of `Model.FairQueue`
+and of the `fq` engine, where it is modelled exactly. -/
 def fqPoll : Nat → Pipes → Nat → Socket → FqRes × Pipes × Socket
   | 0, ps, _, s => (.pending, ps, s)
   | fuel+1, ps, sid, s =>
